@@ -78,14 +78,17 @@ func drawC06(t *rapid.T, x *X) *Case {
 	if gspec.U(t, 100, "longinput") == 0 && len(c.Input) > 0 && x.G.Spec.Profile != "leftrec" {
 		// (not for left-recursive grammars: growing a seed re-parses from the rule's start, which
 		// is quadratic in the length by design)
-		// one case in a hundred: a long input (the memo table then holds tens of thousands of
+		// one case in a hundred: a long input of 8000+ bytes (the memo table then holds well over a hundred thousand
 		// entries; the work bound holds for every size)
 		in := append([]byte{}, c.Input...)
-		for len(in) < 3000 {
+		for len(in) < 8000 {
 			in = append(in, c.Input...)
 		}
 		c.Input = in
 		c.Opts.Memoize, c.Opts.Debug = true, false
+		if x.G.Spec.Rule("Loop") != nil {
+			c.Entry = "Loop"
+		}
 	}
 	return c
 }
@@ -132,7 +135,7 @@ func checkC06(x *X, c *Case, strict bool) *Outcome {
 	base.Opts.Memoize, base.Opts.Debug, base.Opts.Stats = false, false, false
 	ro := refOpts(&base)
 	if len(c.Input) >= 3000 {
-		ro.StepBudget = 3000000
+		ro.StepBudget = 8000000
 	}
 	ref := refpeg.Eval(g, c.Input, ro)
 	if ref.OverBudget {
